@@ -38,6 +38,7 @@ structure Facts where
   releaseRechecks : Bool        -- Release re-reads ByIP under lockPod and compares keys
   resyncRechecks : Bool         -- the resync closure re-reads ByIP under lockPod and compares keys
   apiDoubleCheck : Bool         -- podRunning asks the API server after the lister said "not running"
+  wholeKeyCheck : Bool          -- resync / Release leave a key alone while another record of it belongs to a running pod
   runningChecksUID : Bool       -- runningAndUidMatch compares the stored UID with the pod's
 deriving DecidableEq, Repr
 
@@ -50,10 +51,11 @@ def facts : Facts :=
     releaseRechecks := Generated.Plugin.releaseRechecksUnderLock
     resyncRechecks := Generated.Plugin.resyncRechecksUnderLock
     apiDoubleCheck := Generated.Plugin.podRunningAsksApiServerSecond
+    wholeKeyCheck := Generated.Plugin.resyncAndReleaseCheckWholeKey
     runningChecksUID := Generated.Plugin.runningAndUidMatchChecksUID }
 
 /-- the shape the proofs are about -/
-def Facts.good : Facts := ⟨true, true, true, true, true, true, true, true⟩
+def Facts.good : Facts := ⟨true, true, true, true, true, true, true, true, true⟩
 
 /-! ## Subnets and pools -/
 
@@ -277,7 +279,12 @@ structure State where
   pools : List Pool := []
   alloc : Tbl IP Rec := []
   free : List IP := []
-  store : Tbl IP Rec := []          -- FloatingIP objects in the apiserver
+  store : Tbl IP Rec := []          -- FloatingIP objects in the apiserver (of configured addresses)
+  -- FloatingIP objects of addresses a reload removed from the configuration and whose delete FAILED (ConfigurePool
+  -- ignores the error).  The real store is `store ++ orphans`; no operation but ConfigurePool ever names such an
+  -- address (allocation takes configured addresses only), so they are kept apart - every reload / restart lists them
+  -- again, resurrects those whose address is configured again and retries the delete of the others.
+  orphans : Tbl IP Rec := []
   clock : Nat := 0
   -- API truth
   pods : Tbl (String × String) Pod := []
@@ -547,22 +554,37 @@ def toHInfo (s : State) (ip : IP) : HInfo :=
   | some p => { ip := ip, bits := p.bits, gw := p.gateway, vlan := p.vlan }
   | none => { ip := ip, bits := 0, gw := 0, vlan := 0 }
 
-/-- memory right after the rebuild of `allocatedFIPs` from the listed store objects -/
+/-- every FloatingIP object the list call returns -/
+def listed (s : State) : Tbl IP Rec := s.store ++ s.orphans
+
+/-- the listed objects whose address the new configuration contains (one per address) -/
+def confKeep (s : State) (ps : List Pool) : Tbl IP Rec := Tbl.dedup ((listed s).filter (fun e => configured ps e.1))
+
+/-- memory right after the rebuild of `allocatedFIPs` from the listed store objects; the objects of all other
+    addresses are about to be deleted -/
 def confBase (s : State) (ps : List Pool) : State :=
-  { s with pools := ps, alloc := s.store.filter (fun e => configured ps e.1) }
+  { s with pools := ps, alloc := confKeep s ps, store := confKeep s ps,
+           orphans := (listed s).filter (fun e => !configured ps e.1) }
 
 /-- stored objects whose address is no longer configured -/
-def confDrop (s : State) (ps : List Pool) : List IP := (s.store.filter (fun e => !configured ps e.1)).map (·.1)
+def confDrop (s : State) (ps : List Pool) : List IP := ((listed s).filter (fun e => !configured ps e.1)).map (·.1)
 
 /-- the rebuilt unallocated table -/
 def confFree (s : State) (ps : List Pool) : List IP :=
-  (allIPs ps).filter (fun ip => (Tbl.get (s.store.filter (fun e => configured ps e.1)) ip).isNone)
+  (allIPs ps).filter (fun ip => (Tbl.get (confKeep s ps) ip).isNone)
+
+/-- delete the objects of de-configured addresses; an error is logged and ignored (the object stays) -/
+def dropAll (s : State) : List IP → State
+  | [] => s
+  | ip :: t =>
+    if s.api.2 then dropAll s.api.1 t
+    else dropAll { s.api.1 with orphans := s.api.1.orphans.erase ip } t
 
 /-- `ConfigurePool` (lists under the lock: atomic) -/
 def configurePool (s : State) (pools : List Pool) : State × Bool :=
   let c := s.api                               -- listFloatingIPs
   if c.2 then (c.1, false)
-  else ({ deleteAll (confBase c.1 (sortPools pools)) (confDrop c.1 (sortPools pools)) with
+  else ({ dropAll (confBase c.1 (sortPools pools)) (confDrop c.1 (sortPools pools)) with
             free := confFree c.1 (sortPools pools) }, true)
 
 /-! ## Plugin helpers (`floatingip_plugin.go`, `resync.go`, `statefulset.go`, `deployment.go`) -/
@@ -606,6 +628,22 @@ def podRunning (F : Facts) (s : State) (pod ns : String) (uid : Uid) : State × 
   else
     let c := s.api
     if c.2 then (c.1, true) else (c.1, runningMatch F uid (c.1.pods.get (ns, pod)))
+
+/-- `keyOwnedByRunningPod(keyObj, podUid)`: some other record of the key (stored uid differs from `uid`) belongs to a
+    running pod -/
+def keyOwnedLoop (F : Facts) (k : Key) (uid : Nat) : List IP → State → State × Bool
+  | [], s => (s, false)
+  | ip :: t, s =>
+    match s.alloc.get ip with
+    | none => keyOwnedLoop F k uid t s
+    | some r =>
+      if r.key ≠ k then keyOwnedLoop F k uid t s
+      else if r.uid = uid then keyOwnedLoop F k uid t s
+      else if (podRunning F s k.pod k.ns r.uid).2 then ((podRunning F s k.pod k.ns r.uid).1, true)
+      else keyOwnedLoop F k uid t (podRunning F s k.pod k.ns r.uid).1
+
+def keyOwnedByRunningPod (F : Facts) (s : State) (k : Key) (uid : Nat) : State × Bool :=
+  if F.wholeKeyCheck then keyOwnedLoop F k uid (ipsOfKey s k) s else (s, false)
 
 /-- `supportReserveIPPolicy` (no scalable custom resources are installed in the modelled cluster) -/
 def supportReserve (k : Key) (policy : Nat) : Bool :=
@@ -896,26 +934,26 @@ def inChecklist (r : Rec) : Bool :=
   r.key ≠ Key.empty && r.key.pod ≠ "" && r.key.app ≠ "" &&
     !(r.uid == 0 && r.node == "" && !r.key.isDp && r.policy == 2)
 
-/-- the body of the closure in `resyncAllocatedIPs` for one checklist entry (snapshot key `k0`) -/
+/-- what the resync closure does once the record's pod was found not running and the key is free to be handled:
+    provider unassign + clearing node/uid, then unbindDp / unbindOther with the stored policy -/
+def resyncAct (s1 : State) (ip : IP) (k : Key) (r : Rec) : State :=
+  if s1.provOn && r.node ≠ "" then
+    if !(provUnassign s1 r.node ip).2 then (provUnassign s1 r.node ip).1
+    else if k.isDp then (unbindDp (reserve (provUnassign s1 r.node ip).1 k k {}).1 k r.policy).1
+    else (unbindOther (reserve (provUnassign s1 r.node ip).1 k k {}).1 k r.policy).1
+  else if k.isDp then (unbindDp s1 k r.policy).1 else (unbindOther s1 k r.policy).1
+
+/-- the body of the closure in `resyncAllocatedIPs` for one checklist entry (snapshot record `r0`) -/
 def resyncOne (F : Facts) (s : State) (ip : IP) (r0 : Rec) : State :=
-  let k := r0.key
   -- re-read under the pod lock
-  let cur : Option Rec := if F.resyncRechecks then s.alloc.get ip else some r0
-  match cur with
+  match (if F.resyncRechecks then s.alloc.get ip else some r0) with
   | none => s                                   -- key changed to "" (free)
   | some r =>
-    if r.key ≠ k then s
-    else
-      let pr := podRunning F s k.pod k.ns r.uid
-      if pr.2 then pr.1
-      else
-        let s1 := pr.1
-        let go := fun (s2 : State) => if k.isDp then (unbindDp s2 k r.policy).1 else (unbindOther s2 k r.policy).1
-        if s1.provOn && r.node ≠ "" then
-          let u := provUnassign s1 r.node ip
-          if !u.2 then u.1
-          else go (reserve u.1 k k {}).1
-        else go s1
+    if r.key ≠ r0.key then s
+    else if (podRunning F s r0.key.pod r0.key.ns r.uid).2 then (podRunning F s r0.key.pod r0.key.ns r.uid).1
+    else if (keyOwnedByRunningPod F (podRunning F s r0.key.pod r0.key.ns r.uid).1 r0.key r.uid).2 then
+      (keyOwnedByRunningPod F (podRunning F s r0.key.pod r0.key.ns r.uid).1 r0.key r.uid).1
+    else resyncAct (keyOwnedByRunningPod F (podRunning F s r0.key.pod r0.key.ns r.uid).1 r0.key r.uid).1 ip r0.key r
 
 def resyncLoop (F : Facts) (snap : Tbl IP Rec) (s : State) : List IP → State
   | [] => s
@@ -940,21 +978,24 @@ def releasePre (s : State) (node : String) (ip : IP) (k : Key) : State × Res :=
     else ((reserve (provUnassign s node ip).1 k k {}).1, okOr (reserve (provUnassign s node ip).1 k k {}).2 "store")
   else (s, .ok)
 
+/-- Release once the key comparison passed and the record's pod was found not running (state `s1`) -/
+def releaseAct (F : Facts) (s1 : State) (ip : IP) (k : Key) (uid : Nat) (node : String) : State × Out :=
+  if (keyOwnedByRunningPod F s1 k uid).2 then ((keyOwnedByRunningPod F s1 k uid).1, Out.err "running")
+  else
+    match (releasePre (keyOwnedByRunningPod F s1 k uid).1 node ip k).2 with
+    | .ok =>
+      ((release (releasePre (keyOwnedByRunningPod F s1 k uid).1 node ip k).1 k ip).1,
+       { res := (release (releasePre (keyOwnedByRunningPod F s1 k uid).1 node ip k).1 k ip).2 })
+    | e => ((releasePre (keyOwnedByRunningPod F s1 k uid).1 node ip k).1, { res := e })
+
 def apiRelease (F : Facts) (s : State) (ip : IP) (k : Key) : State × Out :=
   if F.releaseRechecks && ((s.alloc.get ip).map (·.key)).getD Key.empty ≠ k then
     (s, if ((s.alloc.get ip).map (·.key)).getD Key.empty = Key.empty then {} else Out.err "key-mismatch")
   else if (podRunning F s k.pod k.ns (((s.alloc.get ip).map (·.uid)).getD 0)).2 then
     ((podRunning F s k.pod k.ns (((s.alloc.get ip).map (·.uid)).getD 0)).1, Out.err "running")
   else
-    match (releasePre (podRunning F s k.pod k.ns (((s.alloc.get ip).map (·.uid)).getD 0)).1
-        (((s.alloc.get ip).map (·.node)).getD "") ip k).2 with
-    | .ok =>
-      ((release (releasePre (podRunning F s k.pod k.ns (((s.alloc.get ip).map (·.uid)).getD 0)).1
-          (((s.alloc.get ip).map (·.node)).getD "") ip k).1 k ip).1,
-       { res := (release (releasePre (podRunning F s k.pod k.ns (((s.alloc.get ip).map (·.uid)).getD 0)).1
-          (((s.alloc.get ip).map (·.node)).getD "") ip k).1 k ip).2 })
-    | e => ((releasePre (podRunning F s k.pod k.ns (((s.alloc.get ip).map (·.uid)).getD 0)).1
-          (((s.alloc.get ip).map (·.node)).getD "") ip k).1, { res := e })
+    releaseAct F (podRunning F s k.pod k.ns (((s.alloc.get ip).map (·.uid)).getD 0)).1 ip k
+      (((s.alloc.get ip).map (·.uid)).getD 0) (((s.alloc.get ip).map (·.node)).getD "")
 
 /-! ## Pod-IP sync (`resync.go` syncPodIPsIntoDB) -/
 
